@@ -237,6 +237,7 @@ class Contract:
     merge_threshold: int = 0                              # frame mode: join states only above this many (0 = default)
     pop_guard: bool = False
     ctx_facts: list = field(default_factory=list)
+    seq_split: bool = False          # value mode: s.split(d) is the immutable sequence py_split(s, d) (shared with the spec)
 
 
 GHOST_SEQ_FIELDS = {"expand_stack"}
@@ -272,6 +273,103 @@ class Registry:
 MUTATING_METHODS = {"append", "pop", "extend", "insert", "remove", "clear", "sort",
                     "reverse", "update", "setdefault", "add", "discard", "popleft",
                     "appendleft", "popitem"}
+
+
+_CONSTS_CACHE: dict = {}
+
+
+def _consts_of(e) -> frozenset:
+    """names of the uninterpreted constants (arity 0) occurring in a term; cached by term id"""
+    i = e.get_id()
+    r = _CONSTS_CACHE.get(i)
+    if r is not None:
+        return r[1]
+    out = set()
+    seen = set()
+    todo = [e]
+    while todo:
+        t = todo.pop()
+        ti = t.get_id()
+        if ti in seen:
+            continue
+        seen.add(ti)
+        if z3.is_quantifier(t):
+            todo.append(t.body())
+            continue
+        if z3.is_app(t):
+            if t.num_args() == 0:
+                if t.decl().kind() == z3.Z3_OP_UNINTERPRETED:
+                    out.add(t.decl().name())
+            else:
+                todo.extend(t.children())
+    r = frozenset(out)
+    if len(_CONSTS_CACHE) > 200000:
+        _CONSTS_CACHE.clear()
+    _CONSTS_CACHE[i] = (e, r)      # keep the term alive so that the id is not reused
+    return r
+
+
+_SK_CACHE: dict = {}
+_BOOL_OPS = None
+_INT_OPS = None
+
+
+def _skeleton(e):
+    """over-approximation of a formula in linear integer arithmetic + propositional logic"""
+    global _BOOL_OPS, _INT_OPS
+    if _BOOL_OPS is None:
+        _BOOL_OPS = {z3.Z3_OP_AND, z3.Z3_OP_OR, z3.Z3_OP_NOT, z3.Z3_OP_IMPLIES, z3.Z3_OP_ITE, z3.Z3_OP_TRUE,
+                     z3.Z3_OP_FALSE, z3.Z3_OP_XOR, z3.Z3_OP_IFF}
+        _INT_OPS = {z3.Z3_OP_ADD, z3.Z3_OP_SUB, z3.Z3_OP_UMINUS, z3.Z3_OP_MUL, z3.Z3_OP_ITE, z3.Z3_OP_ANUM}
+    i = e.get_id()
+    hit = _SK_CACHE.get(i)
+    if hit is not None:
+        return hit[1]
+    if len(_SK_CACHE) > 200000:
+        _SK_CACHE.clear()
+
+    def fin(r):
+        _SK_CACHE[i] = (e, r)
+        return r
+    if z3.is_quantifier(e) or not z3.is_app(e):
+        return fin(z3.Bool(f"skb!{i}") if z3.is_bool(e) else z3.Int(f"ski!{i}"))
+    k = e.decl().kind()
+    if z3.is_bool(e):
+        if k in _BOOL_OPS:
+            return fin(e.decl()(*[_skeleton(c) for c in e.children()]) if e.num_args() else e)
+        if k in (z3.Z3_OP_LE, z3.Z3_OP_LT, z3.Z3_OP_GE, z3.Z3_OP_GT) and z3.is_int(e.arg(0)):
+            return fin(e.decl()(_skeleton(e.arg(0)), _skeleton(e.arg(1))))
+        if k in (z3.Z3_OP_EQ, z3.Z3_OP_DISTINCT) and e.num_args() == 2 and (z3.is_int(e.arg(0)) or z3.is_bool(e.arg(0))):
+            a, b = _skeleton(e.arg(0)), _skeleton(e.arg(1))
+            return fin(a == b if k == z3.Z3_OP_EQ else a != b)
+        return fin(z3.Bool(f"skb!{i}"))
+    if z3.is_int(e):
+        if k in _INT_OPS:
+            if k == z3.Z3_OP_MUL and sum(0 if z3.is_int_value(c) else 1 for c in e.children()) > 1:
+                return fin(z3.Int(f"ski!{i}"))
+            return fin(e.decl()(*[_skeleton(c) for c in e.children()]) if e.num_args() else e)
+        return fin(z3.Int(f"ski!{i}"))
+    return fin(e)
+
+
+def _is_arith_only(e) -> bool:
+    """the condition's own atoms are integer comparisons / propositional structure (its integer leaves may be
+    arbitrary terms): the skeleton then loses nothing that the condition itself says"""
+    todo = [e]
+    while todo:
+        t = todo.pop()
+        if z3.is_quantifier(t) or not z3.is_app(t):
+            return False
+        k = t.decl().kind()
+        if z3.is_bool(t):
+            if k in _BOOL_OPS:
+                todo.extend(t.children())
+            elif k in (z3.Z3_OP_LE, z3.Z3_OP_LT, z3.Z3_OP_GE, z3.Z3_OP_GT, z3.Z3_OP_EQ, z3.Z3_OP_DISTINCT) \
+                    and z3.is_int(t.arg(0)):
+                continue
+            else:
+                return False
+    return True
 
 
 class X:
@@ -542,6 +640,8 @@ class X:
 
     def ev_Name(self, e, st, chain):
         v = self.lookup(e.id, st, chain)
+        if v is None and e.id == "variant_at_head" and self.in_clause and "variant_at_head" in st.ghost:
+            return [(st, st.ghost["variant_at_head"])]
         if v is None and e.id in CTX_NAMES:
             return [(st, V("ctx", "ctx"))]
         if v is None and self.in_clause and self._is_local_of_fn(e.id):
@@ -659,9 +759,50 @@ class X:
             return True
         if z3.is_false(cond):
             return False
+        # syntactic shortcut: the condition (or its negation) is already a conjunct of the path condition
+        cid = cond.get_id()
+        ncid = cond.arg(0).get_id() if z3.is_not(cond) else None
+        for c in st.pc:
+            i = c.get_id()
+            if i == cid:
+                return True
+            if i == ncid:
+                return False
+            if z3.is_not(c) and c.arg(0).get_id() == cid:
+                return False
+        # cone of influence: only the conjuncts connected to the condition through shared constants.  A path is
+        # pruned only when this SUBSET of the path condition is unsatisfiable together with the condition
+        # (sound: a superset is then unsatisfiable too); anything else keeps the path.
+        need = set(_consts_of(cond))
+        rest = [(c, _consts_of(c)) for c in st.pc]
+        cone = []
+        changed = True
+        while changed and rest:
+            changed = False
+            keep = []
+            for c, vs in rest:
+                if vs & need:
+                    cone.append(c)
+                    need |= vs
+                    changed = True
+                else:
+                    keep.append((c, vs))
+            rest = keep
+        # 1. arithmetic / propositional skeleton (every other atom a fresh Boolean, every other integer term a
+        #    fresh integer): unsat there => unsat; a purely arithmetic condition is decided by it alone
+        sk = z3.Solver()
+        sk.set("timeout", 300)
+        for c in cone:
+            sk.add(_skeleton(c))
+        sk.add(_skeleton(cond))
+        r = sk.check()
+        if r == z3.unsat:
+            return False
+        if _is_arith_only(cond):
+            return True
         s = z3.Solver()
         s.set("timeout", 300)
-        for c in st.pc:
+        for c in cone:
             s.add(c)
         s.add(cond)
         return s.check() != z3.unsat
@@ -1696,7 +1837,23 @@ class X:
                 if hv is not None:
                     head_vals[nm + "_at_head"] = hv
             self._head_vals = head_vals
+            vb = None
+            saved_vh = bs.ghost.get("variant_at_head")
+            if spec and spec.get("variant"):
+                # value of the variant at the start of this iteration; inner loop invariants may mention it
+                # as `variant_at_head`
+                rb = self.eval_clause(spec["variant"], bs, chain)
+                if len(rb) == 1 and rb[0][1].k == "int":
+                    vb = rb[0][1].t
+                    bs.ghost = dict(bs.ghost)
+                    bs.ghost["variant_at_head"] = V("int", vb)
             for s2, oc in self.block(s_.body, bs, chain):
+                if spec and spec.get("variant"):
+                    s2.ghost = dict(s2.ghost)
+                    if saved_vh is None:
+                        s2.ghost.pop("variant_at_head", None)
+                    else:
+                        s2.ghost["variant_at_head"] = saved_vh
                 self._head_vals = head_vals
                 if oc[0] in ("fall", "continue"):
                     if foreach and cur_title is not None:
@@ -1710,7 +1867,7 @@ class X:
                     else:
                         self.check_ghost_unchanged(s2, g_head, s_, f"loop[{fp[:60]}]")
                     if spec and spec.get("variant"):
-                        self._check_variant(s_, bs, s2, chain, spec, fp)
+                        self._check_variant(s_, vb, s2, chain, spec, fp)
                 elif oc[0] == "break":
                     s2.ghost = dict(s2.ghost)
                     exit_states.append(s2)
@@ -1774,13 +1931,14 @@ class X:
                 else:
                     self.oblige(kind, f"{fp[:60]} :: {cl}", s2, self.truth_st(v, s2))
 
-    def _check_variant(self, s_, before: St, after: St, chain, spec, fp):
+    def _check_variant(self, s_, vb, after: St, chain, spec, fp):
+        """termination: the integer variant is non-negative at the start of an iteration and strictly smaller
+        at its end"""
         cl = spec["variant"]
-        b = self.eval_clause(cl, before, chain)
         a = self.eval_clause(cl, after, chain)
-        if len(a) == 1 and len(b) == 1 and a[0][1].k == "int" and b[0][1].k == "int":
-            self.oblige("variant", f"{fp[:60]} :: {cl}", after,
-                        z3.And(b[0][1].t >= 0, a[0][1].t < b[0][1].t))
+        if len(a) == 1 and vb is not None and a[0][1].k == "int":
+            self.oblige("variant", f"{fp[:60]} :: {cl}", a[0][0],
+                        z3.And(vb >= 0, a[0][1].t < vb))
         else:
             self.oblige("variant", f"{fp[:60]} :: {cl}", after, z3.BoolVal(False), detail="variant not int")
 
@@ -1886,18 +2044,27 @@ class X:
         s1 = s.fork()
         env = dict(getattr(self, "entry_params", {}))     # parameter names denote entry values
         env["result"] = result if result is not None else NONE
+        # the auxiliary definitions may fork (conditional expressions): one obligation per combination
+        work = [(s1, env)]
         for nm, src in self.c.lets.items():
-            rs = self.eval_clause(src, s1, chain, env)
-            if len(rs) == 1 and rs[0][1].k != "raise":
-                env[nm] = rs[0][1]
-        for s2, v in self.eval_clause(cl, s1, chain, env):
-            ob_site = f"{cl} @ {site[:80]}"
-            if v.k == "raise":
-                self.oblige(kind, ob_site, s2, z3.BoolVal(False), detail=f"clause raised {v.t}")
-            else:
-                self.obligs.append(Obligation(kind, self.cur_fn, ob_site[:200], 0, list(s2.pc),
-                                              self.truth_st(v, s2), prop=self.c.prop,
-                                              line=getattr(node, "lineno", 0)))
+            nxt = []
+            for sa, ea in work:
+                for sb, vb in self.eval_clause(src, sa, chain, ea):
+                    if vb.k == "raise":
+                        continue
+                    eb = dict(ea)
+                    eb[nm] = vb
+                    nxt.append((sb, eb))
+            work = nxt
+        for sa, ea in work:
+            for s2, v in self.eval_clause(cl, sa, chain, ea):
+                ob_site = f"{cl} @ {site[:80]}"
+                if v.k == "raise":
+                    self.oblige(kind, ob_site, s2, z3.BoolVal(False), detail=f"clause raised {v.t}")
+                else:
+                    self.obligs.append(Obligation(kind, self.cur_fn, ob_site[:200], 0, list(s2.pc),
+                                                  self.truth_st(v, s2), prop=self.c.prop,
+                                                  line=getattr(node, "lineno", 0)))
 
     def _post_raise(self, s: St, chain, oc, entry: St):
         exc = oc[1]
